@@ -86,6 +86,8 @@ def _one_dict(c):
   spec_flat = {''.join(e['key']): _tag(e['path']) for e in c['flat']}
   spec_empty = sorted(''.join(k) for k in c['emptykeys'])
   # -- flatten
+  import copy
+  x0 = copy.deepcopy(x)
   flat = None
   try:
     flat, emp = pu.flatten_dict(x, sep=sep)
@@ -102,9 +104,12 @@ def _one_dict(c):
       bad('flatten:values', f'flat dict {flat!r} spec {spec_flat!r}')
     if sorted(emp) != spec_empty:
       bad('flatten:empty_keys', f'empty keys {sorted(emp)} spec {spec_empty}')
+    flat0, emp0 = copy.deepcopy(flat), copy.deepcopy(emp)
     back = pu.unflatten_dict(flat, emp, sep=sep)
-    if back != x:
+    if back != x0:
       bad('roundtrip:flatten_unflatten', f'unflatten(flatten(x)) = {back!r}')
+    if x != x0 or flat != flat0 or list(emp) != list(emp0):
+      bad('roundtrip:arguments_modified', f'the utilities changed their arguments: tree {x!r} (was {x0!r}), flat {flat!r} (was {flat0!r})')
     if sep == '&':      # the default arguments
       f2, e2 = pu.flatten_dict(x)
       if f2 != spec_flat or sorted(e2) != spec_empty or pu.unflatten_dict(f2, e2) != x:
